@@ -9,6 +9,7 @@ import Tahoe.Uri.Show
   `un <deep> <rw|N> <ro|N>`          -> `err rw ro`          UnknownNode(rw, ro, deep_immutable)
   `spr <deep> <hex>`                 -> hex                  strip_prefix_for_ro
   `cfc <deep> <w|N> <r|N>`           -> `K <node kind> ro mut` | `U err rw ro`   NodeMaker.create_from_cap (fresh)
+  `slot <deep> <w|N> <r|N> <rk>`      -> `REFUSED e` | `NOTPACKABLE` | `STORED hex -> <reader node> auth=…`   set_uri+pack ro slot, reader
   `hist c:<deep>:<w|N>:<r|N> …`      -> results joined by `;`   a history of create_from_cap on one NodeMaker -/
 open Tahoe.Drv Tahoe.Uri
 
@@ -44,6 +45,12 @@ def nodeKindName : NodeKind → String
   | .literal => "Literal" | .immutable => "Immutable" | .immutableVerifier => "ImmutableVerifier"
   | .mutableFile => "Mutable" | .dirnode k => "Dir(" ++ nodeKindName k ++ ")"
 
+def showAuth : Authority → String
+  | .opaque => "O" | .verify => "V" | .read => "R" | .write => "W"
+
+def showOptAuth : Option Authority → String
+  | none => "-" | some a => showAuth a
+
 def showUnknownNode (n : UnknownNode) : String :=
   s!"{showErr n.error} {showOptBytes n.rw} {showOptBytes n.ro}"
 
@@ -57,7 +64,7 @@ def handle : List String → String
           let H : Hashes := ⟨fun x => (lookup trk x).getD [], fun x => (lookup tsi x).getD [], fun x => (lookup tchk x).getD []⟩
           let ro := c.getReadonly H
           let v := c.getVerifyCap H
-          s!"{showOptBool c.isReadonly} {showOptBool c.isMutable} {showOptBytes (c.storageIndex H)} | {showOptCap ro} | {showOptCap v} | {showOptCap (ro.bind (·.getVerifyCap H))} | {showOptCap (v.bind (·.getVerifyCap H))}"
+          s!"{showOptBool c.isReadonly} {showOptBool c.isMutable} {showOptBytes (c.storageIndex H)} | {showOptCap ro} | {showOptCap v} | {showOptCap (ro.bind (·.getVerifyCap H))} | {showOptCap (v.bind (·.getVerifyCap H))} | auth={showAuth c.authority}{showOptAuth (ro.map Cap.authority)}{showOptAuth (v.map Cap.authority)}"
         else "bad-op missing hash table entry"
       | none => "bad-op"
     | _, _, _, _ => "bad-op"
@@ -111,8 +118,29 @@ def handleHist (toks : List String) : String :=
   | some ops => ";".intercalate ((runHistory [] ops).map showNode)
   | none => "bad-op"
 
+/-- `slot <deep> <w|N> <r|N> <rk>`: what set_uri + pack store in the cleartext ro slot for this child, and the
+node (with its authority) a reader of the directory builds from it -/
+def handleSlot : List String → String
+  | [d, w, r, rk] =>
+    match parseBool d, parseOptBytes w, parseOptBytes r, parseTable rk with
+    | some deep, some wc, some rc, some trk =>
+      -- the only hash the route needs is readkey(writekey) of a known write cap child
+      let need : Option B := match createFromCap wc rc deep with
+        | .known _ cap => cap.inner.bind FileCap.writeKey
+        | .unknown _ => none
+      if need.all (fun x => (lookup trk x).isSome) then
+        let H : Hashes := ⟨fun x => (lookup trk x).getD [], fun _ => [], fun _ => []⟩
+        match packRo H wc rc deep with
+        | .refused e => s!"REFUSED {showErr (some e)}"
+        | .notPackable => "NOTPACKABLE"
+        | .stored st => let n := readerNode st deep; s!"STORED {hexOfBytes st} -> {showNode n} auth={showAuth n.authority}"
+      else "bad-op missing hash table entry"
+    | _, _, _, _ => "bad-op"
+  | _ => "bad-op"
+
 def handleAll : List String → String
   | "hist" :: toks => handleHist toks
+  | "slot" :: toks => handleSlot toks
   | toks => handle toks
 
 def main : IO Unit := mainLoop handleAll
